@@ -101,12 +101,13 @@ pub(crate) mod verif_cmd {
             FS_TOUCHED_AT_ASK = FS.creates + FS.writes + FS.appends_opened;
             if ASK_FAIL { return Err(anyhow::Error::msg("no password")); }
         }
-        Ok(ZeroedString::new(String::from(if unsafe { PASS_SPACE } { "p " } else { "p" })))
+        // (two branches with concrete-length strings: a symbolic-length copy is mis-modelled by the back end)
+        if unsafe { PASS_SPACE } { Ok(ZeroedString::new(String::from("p "))) } else { Ok(ZeroedString::new(String::from("p"))) }
     }
     pub static mut PASS_SPACE: bool = false; // the password ends with a space (must reach scrypt unchanged)
     pub static mut NAME_KIND: u8 = 0; // 0 = valid, 1 = empty
     pub fn ask_user_model(_prompt: &str) -> Result<String, anyhow::Error> {
-        unsafe { Ok(String::from(if NAME_KIND == 0 { "n" } else { "" })) }
+        unsafe { if NAME_KIND == 0 { Ok(String::from("n")) } else { Ok(String::new()) } }
     }
 
     // ---------------------------------------------------------------- E-RNG + key material recorders
@@ -520,7 +521,7 @@ pub(crate) mod verif_cmd {
     pub static mut NEWPASS_SAME: bool = false; // the new password equals the old one
     pub fn new_pass_model(_p: &str, _e: bool) -> Result<ZeroedString, anyhow::Error> {
         unsafe { if NEWPASS_FAIL { return Err(anyhow::Error::msg("no new password")); } }
-        Ok(ZeroedString::new(String::from(if unsafe { NEWPASS_SAME } { "p" } else { "q" })))
+        if unsafe { NEWPASS_SAME } { Ok(ZeroedString::new(String::from("p"))) } else { Ok(ZeroedString::new(String::from("q"))) }
     }
     macro_rules! key_cmd_stubs { ($f:item) => {
         #[kani::proof]
@@ -605,7 +606,7 @@ pub(crate) mod verif_cmd {
             if new { ENV_READS_NEW += 1; } else { ENV_READS_OLD += 1; }
             if !ENV_SET { return Err(std::env::VarError::NotPresent); }
             // values with leading and trailing whitespace: they must reach the key derivation unchanged
-            Ok(String::from(if new { " q " } else { " p " }))
+            if new { Ok(String::from(" q ")) } else { Ok(String::from(" p ")) }
         }
     }
     /// C16/C02/C14: with --env-pass the password is exactly the value of KESTREL_PASSWORD (KESTREL_NEW_PASSWORD for the
